@@ -42,7 +42,7 @@ func buildAsync(c asyncCase, tagName string) (*log.AsyncLogger, string, func(), 
 	if c.ViaCfg {
 		cfg := map[string]string{
 			"appender." + sinkName + ".type": apType,
-			"logger.lg.type":                "AsyncLogger", "logger.lg.tags": tagName, "logger.lg.level": "INFO",
+			"logger.lg.type":                 "AsyncLogger", "logger.lg.tags": tagName, "logger.lg.level": "INFO",
 			"logger.lg.bufferSize": fmt.Sprint(c.Buf), "logger.lg.bufferFullPolicy": c.Policy, "logger.lg.appenderRef.ref": sinkName,
 		}
 		if c.Appender == "slow" {
